@@ -149,7 +149,9 @@ def check_series(case):
                 long = dict(ij='inner', oj='outer', lj='left', rj='right')[how]
                 variants = [('ctor', lambda ss: type(f)(f.function, index=long, method=method)(*ss)),
                             ('call', lambda ss: f(*ss, join=how, method=method)),
-                            ('kw', lambda ss: type(f)(f.function, index=long, method=method)(ss[0], **dict(zip('bc', ss[1:]))))]
+                            ('kw', lambda ss: type(f)(f.function, index=long, method=method)(ss[0], **dict(zip('bc', ss[1:])))),
+                            ('call-kw', lambda ss: f(ss[0], join=how, method=method, **dict(zip('bc', ss[1:])))),
+                            ('call-allkw', lambda ss: f(join=how, method=method, **dict(zip('abc', ss))))]
                 if method in (None, 'ffill'):
                     variants.append(('prop', lambda ss: (getattr(f, how).ffill if method == 'ffill' else getattr(f, how))(*ss)))
                 for vname, g in variants:
